@@ -534,3 +534,64 @@ def to_sympy(t):
         cls = sympy.Sum if t[1] == "sum" else sympy.Product
         return cls(to_sympy(t[2]), (sympy.Symbol(t[3]), to_sympy(t[4]), to_sympy(t[5])))
     raise ValueError(t)
+
+
+def sympy_to_tree(e):
+    """sympy object (or python number) -> harness tree, structurally (used to hand compiled routines to the model)"""
+    import sympy
+    from sympy.core.function import AppliedUndef
+
+    if isinstance(e, bool):
+        raise ValueError("bool")
+    if isinstance(e, int):
+        return ("num", Fraction(e))
+    if isinstance(e, float):
+        return ("num", Fraction(e))
+    e = sympy.sympify(e)
+    if e.is_Integer:
+        return ("num", Fraction(int(e)))
+    if e.is_Rational:
+        return ("num", Fraction(int(e.p), int(e.q)))
+    if e.is_Float:
+        return ("num", Fraction(float(e)))
+    if e.is_Symbol:
+        return ("sym", str(e))
+    if e.is_Add:
+        args = [sympy_to_tree(a) for a in e.args]
+        out = args[0]
+        for a in args[1:]:
+            out = ("bin", "+", out, a)
+        return out
+    if e.is_Mul:
+        args = [sympy_to_tree(a) for a in e.args]
+        out = args[0]
+        for a in args[1:]:
+            out = ("bin", "*", out, a)
+        return out
+    if e.is_Pow:
+        return ("bin", "**", sympy_to_tree(e.args[0]), sympy_to_tree(e.args[1]))
+    names = {sympy.Max: "max", sympy.Min: "min", sympy.floor: "floor", sympy.ceiling: "ceiling", sympy.Abs: "abs", sympy.Mod: "mod", sympy.frac: "frac"}
+    for cls, nm in names.items():
+        if isinstance(e, cls):
+            return ("app", nm, tuple(sympy_to_tree(a) for a in e.args))
+    if isinstance(e, (sympy.Sum, sympy.Product)) and len(e.args) == 2 and len(e.args[1]) == 3:
+        it, lo, hi = e.args[1]
+        return ("big", "sum" if isinstance(e, sympy.Sum) else "prod", sympy_to_tree(e.args[0]), str(it), sympy_to_tree(lo), sympy_to_tree(hi))
+    if isinstance(e, (AppliedUndef, sympy.Function)):
+        return ("app", type(e).__name__, tuple(sympy_to_tree(a) for a in e.args))
+    raise ValueError(f"cannot convert {type(e).__name__}: {e}")
+
+
+def croutine_sexp(cr) -> str:
+    """real CompiledRoutine -> wire form of the model's CRoutine (constraints omitted)"""
+    def ex(v):
+        return to_sexp(sympy_to_tree(v))
+
+    def ep(x):
+        return f"({x.routine_name if x.routine_name is not None else '_'} {x.port_name})"
+
+    ports = " ".join(f"({p.name} {p.direction} {ex(p.size)})" for p in cr.ports.values())
+    res = " ".join(f"({r.name} {r.type.value} {ex(r.value)})" for r in cr.resources.values())
+    conns = " ".join(f"({ep(s)} {ep(t)})" for s, t in cr.connections.items())
+    ch = " ".join(croutine_sexp(c) for c in cr.children.values())
+    return f"(croutine {cr.name} {cr.type or '_'} ({' '.join(cr.input_params)}) ({ports}) ({res}) ({conns}) _ () ({ch}))"
